@@ -92,6 +92,8 @@ def main(ctx):
                              "light": tier == "quick" and ei > 0})
             if not c["compress"]:
                 jobs.append({"kind": "interleave", "ctx": c, "tier": tier})
+            if ei == 0 or tier == "thorough":
+                jobs.append({"kind": "closing", "ctx": c, "tier": tier})
         ctx.pmap(env, "props.c02:job", jobs, chunksize=2)
     ctx.coverage["states"] = int(ctx.counters["verdict_classes"])
     ctx.coverage["transitions"] = int(ctx.counters["evaluations"])
@@ -99,7 +101,8 @@ def main(ctx):
     ctx.coverage["distinct_nontrivial"] = int(ctx.counters["nontrivial"])
     for n in ("sweep_execs", "seq_execs", "split_execs", "ref_fail_1002", "ref_fail_1007",
               "ref_ok", "ref_closed", "pings_answered", "msgs_delivered", "drop_observed",
-              "closeframe_observed", "queued_read_execs", "interleave_execs"):
+              "closeframe_observed", "queued_read_execs", "interleave_execs", "closing_ctx_execs",
+              "closing_ctx_violation_failed"):
         ctx.require(n)
 
 
@@ -308,6 +311,8 @@ def job(a):
         return _job_split(a, c, env)
     if kind == "interleave":
         return _job_interleave(a, c, env)
+    if kind == "closing":
+        return _job_closing(a, c, env)
     raise ValueError(kind)
 
 
@@ -733,11 +738,99 @@ def _job_interleave(a, c, env):
             "samples": [{"kind": "interleave", "ctx": c, "conn1": list(A[1]), "conn2": list(B[0])}]}
 
 
+def _closing_case(c, stream, stats=None):
+    """-> [(clause, detail)] for one stream received after the application's sendClose()"""
+    from ref import ws_receiver as R
+    from ref import ws_frames as F
+    v = R.judge(stream, _refctx(c))
+    ep = _endpoint(c)
+    ep.take()
+    ep.proto.sendClose(1000, "bye")
+    ep.conn.settle()
+    ep.take()
+    n0 = len(ep.rec)
+    ep.feed(stream)
+    ep.conn.settle()
+    events = [e for e in ep.rec[n0:] if e[0] in ("onMessage", "onPing", "onPong")]
+    dropped = bool(ep.t.calls)
+    extra_out = ep.take()
+    if ep.conn.own_drop_pending():
+        ep.conn.deliver_own_drop()
+        ep.conn.settle()
+    onclose = [e for e in ep.rec if e[0] == "onClose"]
+    bad = []
+    if ep.conn.escapes:
+        bad.append(("escape", repr(ep.conn.escapes[0])[:200]))
+    # deliveries while closing are C05's subject; here: never anything the reference does not assign
+    exp = expected_events(v)
+    pos = 0
+    for e in events:
+        while pos < len(exp) and tuple(exp[pos]) != tuple(e[:len(exp[pos])]):
+            pos += 1
+        if pos >= len(exp):
+            bad.append(("delivered-unassigned", "%s not among the deliveries of the well-formed prefix" % (
+                _short([e]),)))
+            break
+        pos += 1
+    if v.fail is not None and len(stream) >= v.fail["latest"]:
+        if not dropped:
+            bad.append(("closing-violation-not-failed", "%s while our close frame is out: no TCP drop requested, "
+                        "state=%s" % (v.fail["why"], ep.state())))
+        elif onclose and onclose[0][1] is not False:
+            bad.append(("closing-violation-reported-clean", "%s: onClose%r" % (v.fail["why"], onclose[0][1:])))
+        elif stats is not None:
+            stats["closing_ctx_violation_failed"] += 1
+    elif v.fail is None and not v.closed:
+        if dropped:
+            bad.append(("false-failure", "well-formed stream while closing, but transport calls %s" % (ep.t.calls,)))
+    errs, msgs, ctrls, frames = F.check_sender_stream(extra_out, c["role"] == "client",
+                                                      rsv1_negotiated=c["compress"], complete=True)
+    if [1 for (op, p_, _) in ctrls if op == 8]:
+        bad.append(("second-close-frame", "a further close frame was written after sendClose()"))
+    return bad
+
+
+def _job_closing(a, c, env):
+    """receiver context 'the application has called sendClose(), the peer's close frame is not in yet':
+    the peer's octets are still judged - a violation fails the connection. Our close frame is out
+    already and a second one may not be sent, so failing means: the TCP connection is dropped and the
+    close is reported unclean (in both failure modes); nothing is delivered that the reference does
+    not assign; a well-formed stream fails nothing."""
+    stats = _new_stats()
+    stats["closing_ctx_execs"] = 0
+    stats["closing_ctx_violation_failed"] = 0
+    K = frame_kinds(c)
+    d = dict(K)
+    names = [k[0] for k in K]
+    seqs = [(n,) for n in names] + [(x, n) for x in ("text-hello", "ping-empty", "text-frag-open") for n in names]
+    viol, persig = [], {}
+    evals = 0
+    for seq in seqs:
+        if _garbage_deflate(seq):
+            continue
+        stream = b"".join(d[k] for k in seq)
+        evals += 1
+        stats["closing_ctx_execs"] += 1
+        stats["nontrivial"] += 1
+        for clause, detail in _closing_case(c, stream, stats):
+            sig = (clause, seq[-1])
+            persig[sig] = persig.get(sig, 0) + 1
+            if persig[sig] <= 1 and len(viol) < 30:
+                vv = _viol(c, env, clause, "after sendClose(): seq=%s %s" % ("+".join(seq), detail),
+                           stream.hex(), [stream.hex()], "closing")
+                vv["replay"]["arg"]["closing"] = True
+                viol.append(vv)
+    return {"evals": evals, "viol": viol, "stats": stats,
+            "samples": [{"kind": "closing-context", "ctx": c, "sequences": len(seqs)}]}
+
+
 def replay(a):
     from ref import ws_receiver as R
     c = a["ctx"]
     segs = [bytes.fromhex(s) for s in a["segments"]]
     stream = b"".join(segs)
+    if a.get("closing"):
+        return {"viol": [{"sig": p[0], "desc": p[1]} for p in _closing_case(c, stream)]}
     v = R.judge(stream, _refctx(c))
     obs = run_stream(c, segs)
     probs = compare(c, stream, v, obs)
